@@ -547,7 +547,7 @@ func checkAztecRefGrid(c *Ctx, n *Normer, fn *ssa.Function) {
 				_ = q
 			}
 			n.env = append(n.env, env)
-			cond := n.EdgeCond(grid.hdr, grid.hdr.Succs[0])
+			cond := n.LoopCond(grid.hdr)
 			n.env = n.env[:len(n.env)-1]
 			switch cond.Kind {
 			case CTrue:
@@ -653,6 +653,9 @@ func firstOpen(v ssa.Value, n *Normer, depth int) ssa.Value {
 				return nil // loop-carried
 			}
 		}
+		if rotatedExitAlias(x) != nil {
+			return nil // final value of a loop variable, not a choice
+		}
 		return x
 	case *ssa.BinOp:
 		if p := firstOpen(x.X, n, depth+1); p != nil {
@@ -669,8 +672,22 @@ func firstOpen(v ssa.Value, n *Normer, depth int) ssa.Value {
 		if _, _, ok := expandableCall(v, n); ok {
 			return v
 		}
+		if call, ok := v.(*ssa.Call); ok && isMinMax(call) {
+			for _, a := range call.Common().Args {
+				if p := firstOpen(a, n, depth+1); p != nil {
+					return p
+				}
+			}
+			return v // min(a, b) / max(a, b): a two-way choice
+		}
 	}
 	return nil
+}
+
+// isMinMax: the builtin min or max applied to two integers.
+func isMinMax(call *ssa.Call) bool {
+	b, ok := call.Common().Value.(*ssa.Builtin)
+	return ok && (b.Name() == "min" || b.Name() == "max") && len(call.Common().Args) == 2 && isIntType(call.Type())
 }
 
 func firstOpenPhi(v ssa.Value, n *Normer, depth int) *ssa.Phi {
@@ -728,6 +745,25 @@ func (n *Normer) valueCases(fn *ssa.Function, from *ssa.BasicBlock, v ssa.Value,
 				}
 				return
 			}
+		}
+		if mm, ok := open.(*ssa.Call); ok && decided < 6 && isMinMax(mm) {
+			// min(a, b) = a when a <= b, else b; max(a, b) = a when a >= b, else b
+			a, b := n.Norm(mm.Common().Args[0]), n.Norm(mm.Common().Args[1])
+			op := token.LEQ
+			if mm.Common().Value.(*ssa.Builtin).Name() == "max" {
+				op = token.GEQ
+			}
+			first := cmpCond(op, a, b)
+			for k, alt := range []Poly{a, b} {
+				cc := first
+				if k == 1 {
+					cc = cNot(first)
+				}
+				n.env = append(n.env, map[ssa.Value]Poly{open: alt})
+				rec(cAnd(cond, cc), decided+1)
+				n.env = n.env[:len(n.env)-1]
+			}
+			return
 		}
 		phi, _ := open.(*ssa.Phi)
 		if phi == nil || decided >= 6 {
